@@ -131,13 +131,13 @@ def gen_random(rng, n, faults, maxops=200):
     return out
 
 
-def gen_spy(rng, n):
-    """BufferedSpyMetricSink with a bounded, never-drained queue (fault injector)"""
+def gen_spy(rng, n, faults):
+    """BufferedSpyMetricSink; with [faults] its bounded, never-drained queue is the fault injector"""
     out = []
     for _ in range(n):
-        cap = rng.choice(["d", "0", "1", "2", "8", "16", "64", "512"])
+        cap = rng.choice(["d", "d", "0", "1", "2", "8", "16", "64", "512"])
         c = 512 if cap == "d" else int(cap)
-        q = rng.choice([0, 1, 2, 3, 50])
+        q = rng.choice([0, 1, 2, 3, 50]) if faults else "u"
         ops = []
         for j in range(rng.randint(1, 30)):
             if rng.random() < 0.15:
@@ -145,7 +145,7 @@ def gen_spy(rng, n):
             else:
                 ln = rng.choice([rng.randint(0, c + 2), rng.randint(1, 20), max(0, c - 1), max(0, c - 2)])
                 ops.append("E" + hexs(metric(j, ln)))
-        out.append("S %s %d %s" % (cap, q, ",".join(ops)))
+        out.append("S %s %s %s" % (cap, q, ",".join(ops)))
     return out
 
 
@@ -223,10 +223,16 @@ def analyse(case, obs):
                 lines[j] = op[1] + ending
     atts = []
     used = set()
+    okres = set(j for j, r in enumerate(results) if r.startswith("k"))
     for (opi, data, out) in log:
-        # an attempt made during operation opi can only carry metrics emitted so far
-        avail = {i: ln for i, ln in lines.items() if i <= opi}
-        alone = [i for i, m in big.items() if m == data and i <= opi]
+        # an attempt made during operation opi can only carry metrics emitted so far; among metrics with
+        # identical bytes prefer those whose emit was acknowledged (the others must never be written, and
+        # identical bytes cannot tell them apart)
+        avail = {i: ln for i, ln in lines.items() if i <= opi and i in okres}
+        if segment(data, avail, used) is None:
+            avail = {i: ln for i, ln in lines.items() if i <= opi}
+        alone = [i for i, m in big.items() if m == data and i <= opi and i in okres] or \
+                [i for i, m in big.items() if m == data and i <= opi]
         ids = segment(data, avail, used)
         kind = None
         if ids is not None and len(data) <= cap:
@@ -234,7 +240,8 @@ def analyse(case, obs):
             if out == "o":
                 used.update(ids)
         elif alone:
-            kind = ("alone", alone[-1])
+            own = [i for i in alone if i == opi]
+            kind = ("alone", own[0] if own else alone[-1])
         atts.append({"op": opi, "data": data, "out": out, "kind": kind})
     return {"cap": cap, "ending": ending, "ops": ops, "script": script, "results": results,
             "atts": atts, "fits": fits, "big": big, "lines": lines}
@@ -363,7 +370,7 @@ def clause_greedy(a):
                 return "emit %d wrote to the socket although %d buffered + %d new bytes fit in %d with room to spare" % (
                     j, pending, need, cap)
             for at in atts:
-                if at["kind"] and at["kind"][0] == "lines" and j not in at["kind"][1]:
+                if at["kind"] and at["kind"][0] == "lines" and at["data"] and j not in at["kind"][1]:
                     if not (len(at["data"]) + need > cap):
                         return "emit %d flushed a datagram of %d bytes although the %d new bytes still fitted in %d" % (
                             j, len(at["data"]), need, cap)
@@ -385,6 +392,29 @@ def clause_greedy(a):
                     n_datagrams_segment, j, sizes_segment, cap, want)
             sizes_segment = []
             n_datagrams_segment = 0
+    return None
+
+
+def check_spy(case, obs):
+    """framing of the messages a BufferedSpyMetricSink put on its channel (capacity 512 when none given)"""
+    t = case.split()
+    cap = 512 if t[1] == "d" else int(t[1])
+    ops = [("F",) if x == "F" else ("E", unhex(x[1:])) for x in t[3].split(",")]
+    r, m = obs.split("|M:")
+    msgs = [unhex(x) for x in m.split(";")] if m else []
+    lines = {j: op[1] + b"\n" for j, op in enumerate(ops) if op[0] == "E" and len(op[1]) + 1 <= cap}
+    big = [op[1] for op in ops if op[0] == "E" and len(op[1]) + 1 > cap]
+    used = set()
+    for k, data in enumerate(msgs):
+        ids = segment(data, lines, used)
+        if ids is not None and len(data) <= cap:
+            used.update(ids)
+        elif data in big:
+            pass
+        else:
+            return "message %d (%d bytes) on the spy channel is neither whole lines within %d bytes nor an oversized metric alone" % (k, len(data), cap)
+    if "p" in r:
+        return "panic"
     return None
 
 
@@ -440,7 +470,7 @@ def run_writer_check(prop, tier, seed, faults, design_ref):
     cases += ex
     cases += gen_boundary(rng, 20000 if thorough else 3000, faults)
     cases += gen_random(rng, 20000 if thorough else 1500, faults)
-    spy = gen_spy(rng, 5000 if thorough else 500)
+    spy = gen_spy(rng, 5000 if thorough else 500, faults)
     try:
         impl = common.run_harness("mlw", cases)
         model = common.run_model("mlw", cases)
@@ -459,6 +489,13 @@ def run_writer_check(prop, tier, seed, faults, design_ref):
         rep.violation_input("%s (%d failing cases; smallest shown)" % (v, len(bad)),
                             {"bin": "mlw", "case": c, "implementation": o, "clause": v,
                              "how": "build/target/release/harness mlw <file with the case line>"})
+    bad_spy = [(len(c), c, o, v) for c, o, v in ((c, o, check_spy(c, o)) for c, o in zip(spy, impl_spy)) if v]
+    if bad_spy and not bad:
+        bad_spy.sort()
+        _, c, o, v = bad_spy[0]
+        rep.violation_input("%s (%d failing cases; smallest shown)" % (v, len(bad_spy)),
+                            {"bin": "mlw", "case": c, "implementation": o, "clause": v})
+        bad = bad_spy
     dis = [(case_size(c), c, i, m) for c, i, m in zip(cases, impl, model) if i != m]
     dis_spy = [(c, i, m) for c, i, m in zip(spy, impl_spy, model_spy) if i != m]
     if (dis or dis_spy) and not bad:
